@@ -515,9 +515,10 @@ def write_evidence(args, agg, hellos, wall, n_runs, n_twins, n_echo, lines, rc):
             "distinct_nontrivial": len(agg.nontrivial_interleavings),
             "rule": (
                 "One evaluation = one simulated run: a seeded scenario (1-4 simulated clients, shared "
-                "response/transforms argument objects in one of 11 sharing topologies) executed step by step "
+                "response/transforms argument objects in one of the sharing topologies counted under "
+                "'topologies', run mode mixed / sweep / deck / marathon) executed step by step "
                 "by the seeded read-scheduler in a forked history child and judged against a history-free "
-                "reference evaluated in a second forked child. A run is non-trivial when the library edited at "
+                "reference evaluated in a second forked child (invariants I1-I7, see 'invariants_checked'). A run is non-trivial when the library edited at "
                 "least one shared argument object in place AND that object was used by >= 2 constructions or "
                 "the reads touched >= 2 partitions of a cube built on it; distinct = distinct hash of the "
                 "(client, op kind, target) sequence of the run."
